@@ -101,6 +101,9 @@ ReadBlock(b, o, h, ts) ==
                ELSE IF \E k \in 1..h.type : desig(k) >= h.char THEN "abbreviation index out of bounds"
                ELSE IF \E k \in 1..h.type : nul(k) > c0 + h.char - 1 THEN "abbreviation not terminated"
                ELSE IF \E k \in 1..h.type : off(k) = -2147483647 - 1 THEN "offset -2^31"
+               \* RFC 8536 3.2: "the standard/wall value MUST be one if the UT/local value is one" - inconsistent data
+               ELSE IF \E i \in 1..h.isut : b[PUt(o, h, ts) + i - 1] = 1 /\ (h.isstd = 0 \/ b[PStd(o, h, ts) + i - 1] = 0)
+                    THEN "UT/local without standard/wall"
                ELSE ""
        oddAbbr(k) == LET a == abbr(k) IN Len(a) < 3 \/ Len(a) > 6 \/ \E q \in 1..Len(a) : ~IsAlnumPM(a[q])
        soft == IF h.leap > 0 THEN "leap-second records"
@@ -110,8 +113,6 @@ ReadBlock(b, o, h, ts) ==
                ELSE IF \E i \in 1..h.time : Lt(times[i], MinTime) THEN "time below -2^59"
                ELSE IF \E i \in 1..h.isstd : b[PStd(o, h, ts) + i - 1] > 1 THEN "standard/wall indicator > 1"
                ELSE IF \E i \in 1..h.isut : b[PUt(o, h, ts) + i - 1] > 1 THEN "UT/local indicator > 1"
-               ELSE IF \E i \in 1..h.isut : b[PUt(o, h, ts) + i - 1] = 1 /\ (h.isstd = 0 \/ b[PStd(o, h, ts) + i - 1] = 0)
-                    THEN "UT/local without standard/wall"
                ELSE ""
    IN [hard |-> hard,
        soft |-> IF hard # "" THEN "" ELSE soft,
